@@ -406,3 +406,42 @@ Example ex_binary_le : binary_le_Uint32 [0x78; 0x56; 0x34; 0x12; 0xff] = 0x12345
   /\ binary_le_PutUint32 [1; 2; 3; 4; 5; 6] 1 0x12345678 = [1; 0x78; 0x56; 0x34; 0x12; 6]
   /\ binary_le_Uint16 [0x34; 0x12] = 0x1234 /\ binary_le_Uint32 [1; 2; 3] = 0.
 Proof. repeat split. Qed.
+
+(** * 7. loops (fourth round): what [go_range] computes *)
+Lemma go_range_nil {A St R} (body : Z -> A -> St -> go_loop St R) i s : go_range body i [] s = LoopNext s.
+Proof. reflexivity. Qed.
+Lemma go_range_cons {A St R} (body : Z -> A -> St -> go_loop St R) i x l s :
+  go_range body i (x :: l) s =
+    match body i x s with LoopNext s' => go_range body (i + 1) l s' | LoopReturn r => LoopReturn r end.
+Proof. reflexivity. Qed.
+(** iterations are run in order; a return in the first part skips the second *)
+Lemma go_range_app {A St R} (body : Z -> A -> St -> go_loop St R) i l1 l2 s :
+  go_range body i (l1 ++ l2) s =
+    match go_range body i l1 s with
+    | LoopNext s' => go_range body (i + Z.of_nat (length l1)) l2 s'
+    | LoopReturn r => LoopReturn r
+    end.
+Proof.
+  revert i s. induction l1 as [| x l1 IH]; intros i s.
+  - cbn. now rewrite Z.add_0_r.
+  - cbn [app go_range length]. destruct (body i x s); [| reflexivity].
+    rewrite IH. replace (i + 1 + Z.of_nat (length l1)) with (i + Z.of_nat (S (length l1))) by lia. reflexivity.
+Qed.
+(** a body that never returns: the loop is the left fold of the state over (index, element) *)
+Lemma go_range_fold {A St R} (step : Z -> A -> St -> St) i l s :
+  go_range (fun i x s => @LoopNext St R (step i x s)) i l s =
+    LoopNext (snd (fold_left (fun '(i, s) x => (i + 1, step i x s)) l (i, s))).
+Proof. revert i s. induction l as [| x l IH]; intros i s; cbn; [reflexivity | apply IH]. Qed.
+(** a search loop [if p x { return f x }]: the first element satisfying p *)
+Lemma go_range_find {A St R} (p : A -> bool) (f : A -> R) i l (s : St) :
+  go_range (fun _ x s => if p x then LoopReturn (f x) else LoopNext s) i l s =
+    match find p l with Some x => LoopReturn (f x) | None => LoopNext s end.
+Proof. revert i. induction l as [| x l IH]; intros i; cbn; [reflexivity |]. destruct (p x); [reflexivity | apply IH]. Qed.
+Lemma go_iota_length n : length (go_iota n) = Z.to_nat n.
+Proof. apply repeat_length. Qed.
+Example ex_range_sum : go_range (fun i x s => if x =? 0 then @LoopReturn Z Z (- i) else LoopNext (s + x)) 0 [3; 4; 5] 0 = LoopNext 12
+  /\ go_range (fun i x s => if x =? 0 then @LoopReturn Z Z (- i) else LoopNext (s + x)) 0 [3; 0; 5] 0 = LoopReturn (-1)
+  /\ go_range (fun i _ s => @LoopNext Z Z (s + i)) 0 (go_iota 4) 0 = LoopNext 6.
+Proof. repeat split. Qed.
+Example ex_deref : go_deref 7 (Some 3) = 3 /\ go_deref 7 None = 7 /\ list_len [1; 2; 3] = 3.
+Proof. repeat split. Qed.
